@@ -97,7 +97,7 @@ def run_case(case, ctx):
         y = zoo.make_series(rng, n, positive=True, off=off, index=case["idx"], integer=case["dseed"] % 5 == 0)
         X = None
         if case["withX"]:
-            X = pd.DataFrame({"a": rng.normal(0, 1, n), "b": np.arange(n) * 0.1}, index=y.index)
+            X = pd.DataFrame({"zeta": rng.normal(0, 1, n), "alpha": np.arange(n) * 0.1}, index=y.index)      # column labels not in sorted order
         cv = zoo.build_cv(case["cv"])
         scoring = zoo.build_metric(case["scoring"])
         f = _build(case["forecaster"], lid)
